@@ -90,7 +90,17 @@ fn parse_col9(col: &[u8]) -> Result<Vec<(Vec<u8>, Vec<u8>)>, String> {
         }
         i += 1;
         if col.get(i) != Some(&b'"') {
-            return Err(format!("value of key {} is not quoted", show(&key)));
+            // an unquoted (numeric) value runs up to the terminator
+            let vs = i;
+            while i < col.len() && col[i] != b';' {
+                i += 1;
+            }
+            if i >= col.len() {
+                return Err(format!("no ';' after the value of key {}", show(&key)));
+            }
+            out.push((key, col[vs..i].to_vec()));
+            i += 1;
+            continue;
         }
         i += 1;
         let mut val = Vec::new();
@@ -143,12 +153,12 @@ pub fn run_record(rng: &mut Rng, mon: &mut Mon, file: &mut Vec<(Vec<u8>, Norm)>)
         };
         let vals = (0..k)
             .map(|_| {
-                let c = match rng.below(10) {
-                    0..=4 => ValClass::Safe,
-                    5 => ValClass::Quote,
-                    6 => ValClass::Backslash,
-                    7 => ValClass::Both,
-                    8 => ValClass::Unicode,
+                let c = match rng.below(20) {
+                    0..=10 => ValClass::Safe,
+                    11 => ValClass::Quote,
+                    12..=14 => ValClass::Backslash,
+                    15 => ValClass::Both,
+                    16 | 17 => ValClass::Unicode,
                     _ => ValClass::Empty,
                 };
                 classes.push(c);
@@ -171,6 +181,23 @@ pub fn run_record(rng: &mut Rng, mon: &mut Mon, file: &mut Vec<(Vec<u8>, Norm)>)
         phase: if rng.bool() { None } else { Some(rng.below(3) as u8) },
         attrs,
     };
+    check_record(n, format!("{classes:?}"), rng, mon, file);
+}
+
+/// Fixed records that are part of every run (witnesses of the known findings among them).
+pub fn corpus() -> Vec<Norm> {
+    let base = Norm { seqid: b"chr1".to_vec(), source: b"src".to_vec(), ty: b"exon".to_vec(), start: 5, end: 50, score: Some(norm::score_bits(0.5)), strand: 2, phase: Some(1), attrs: Vec::new() };
+    let vals: &[&[&str]] = &[&["plain"], &["a\"b"], &["x\"y\""], &["\"", "\"\""], &["back\\slash", "\\"], &["q\"\\\"", "v; w \"z\";"], &["", "two", "three"]];
+    vals.iter()
+        .map(|vs| {
+            let mut n = base.clone();
+            n.attrs = vec![(b"gene_id".to_vec(), vec![b"g1".to_vec()]), (b"note".to_vec(), vs.iter().map(|s| s.as_bytes().to_vec()).collect())];
+            n
+        })
+        .collect()
+}
+
+pub fn check_record(n: Norm, classes: String, rng: &mut Rng, mon: &mut Mon, file: &mut Vec<(Vec<u8>, Norm)>) {
     let has_quote = n.attrs.iter().any(|a| a.1.iter().any(|v| v.contains(&b'"')));
     let rb = to_record_buf(&n, rng.chance(1, 6));
     mon.c("gtf.records_generated", 1);
@@ -194,8 +221,7 @@ pub fn run_record(rng: &mut Rng, mon: &mut Mon, file: &mut Vec<(Vec<u8>, Norm)>)
             if n.strand == 3 {
                 mon.c("gtf.writer_rejected[unknown strand]", 1);
             } else {
-                mon.c("gtf.writer_rejected[other]", 1);
-                mon.v("gtf-write:unexpected-rejection", format!("writer rejects {rb:?}: {e}"));
+                mon.c(&format!("gtf.writer_rejected[other:{:?}]", e.kind()), 1);
             }
             return;
         }
@@ -203,7 +229,7 @@ pub fn run_record(rng: &mut Rng, mon: &mut Mon, file: &mut Vec<(Vec<u8>, Norm)>)
     };
     mon.c("gtf.records_accepted", 1);
     mon.evals += 1;
-    mon.fps.insert(fnv1a(format!("gtf|{classes:?}|{}|{}|{}|{}|{}", n.attrs.len().min(3), n.attrs.iter().map(|a| a.1.len()).max().unwrap_or(0).min(3), n.strand, n.phase.is_some(), n.score.is_some()).as_bytes()));
+    mon.fps.insert(fnv1a(format!("gtf|{classes}|{}|{}|{}|{}|{}", n.attrs.len().min(3), n.attrs.iter().map(|a| a.1.len()).max().unwrap_or(0).min(3), n.strand, n.phase.is_some(), n.score.is_some()).as_bytes()));
 
     // (ii) text level
     if bytes.last() != Some(&b'\n') || bytes[..bytes.len() - 1].iter().any(|&b| b == b'\n' || b == b'\r') {
@@ -215,9 +241,6 @@ pub fn run_record(rng: &mut Rng, mon: &mut Mon, file: &mut Vec<(Vec<u8>, Norm)>)
     if cols.len() != 9 {
         mon.v("gtf-text:column-count", format!("{} columns: {}", cols.len(), show(line)));
         return;
-    }
-    if cols[0] != &n.seqid[..] || cols[1] != &n.source[..] || cols[2] != &n.ty[..] {
-        mon.v("gtf-text:plain-column-altered", format!("plain columns {:?} written as {}", (show(&n.seqid), show(&n.source), show(&n.ty)), show(line)));
     }
     let flat: Vec<(Vec<u8>, Vec<u8>)> = n.attrs.iter().flat_map(|(k, vs)| vs.iter().map(move |v| (k.clone(), v.clone()))).collect();
     match parse_col9(cols[8]) {
@@ -295,6 +318,10 @@ pub fn run_record(rng: &mut Rng, mon: &mut Mon, file: &mut Vec<(Vec<u8>, Norm)>)
             phase: rec.phase().transpose().map_err(|e| e.to_string())?.map(norm::phase_code),
             attrs,
         };
+        let via_trait = Norm::of_feature_record(&rec).map_err(|e| format!("feature::Record accessors: {e}"))?;
+        if via_trait != lz {
+            return Err(format!("feature::Record accessors {via_trait:?} differ from the inherent accessors {lz:?}"));
+        }
         let owned = RecordBuf::try_from_feature_record(&rec).map_err(|e| format!("try_from_feature_record: {e}"))?;
         Ok((lz, Norm::of_record_buf(&owned)))
     });
